@@ -240,15 +240,21 @@ Evaluate(C, F, k, A, lm, N) ==
       wa == sumT(LAMBDA c : bc[c].we.a)
       wb == sumT(LAMBDA c : bc[c].we.b)
       tot == RAdd(wb[1], wb[2])
-      \* ren_onst_nrb as implemented
+      \* ren_onst_nrb: renewable energy of the on-site / nearby perimeters.  On-site electricity counts
+      \* net of its exported share, and the nearby renewable fuel of cogeneration net of the share
+      \* of the cogenerated electricity that is exported (both weighted by 1 - k_exp, like step B)
       el == "ELECTRICIDAD"
       renNrbCr == SumSet(LAMBDA c : bc[c].we.b[1], crs \cap Nearby)
       renOnstCr == SumSet(LAMBDA c : bc[c].we.b[1], crs \cap Onsite)
-      renElOnst == IF el \in crs THEN bc[el].we.del_onst[1] ELSE Zero
+      hasSrc(j) == el \in crs /\ j \in bc[el].up.srcs
+      pvShare == IF hasSrc("EL_INSITU") /\ bc[el].an.onst > 0 THEN RDiv(bc[el].an.expJ["EL_INSITU"], R(bc[el].an.onst)) ELSE Zero
+      cgnShare == IF hasSrc("EL_COGEN") /\ bc[el].an.prJ["EL_COGEN"] > 0
+                  THEN RDiv(bc[el].an.expJ["EL_COGEN"], R(bc[el].an.prJ["EL_COGEN"])) ELSE Zero
+      renElOnst == IF el \in crs THEN RMul(bc[el].we.del_onst[1], RSub(One, RMul(RSub(One, k), pvShare))) ELSE Zero
       renElCgn == IF el \in crs THEN bc[el].we.del_cgn[1] ELSE Zero
-      renElExpA == IF el \in crs THEN bc[el].we.exp_a[1] ELSE Zero
+      renCgnExp == RMul(SumSet(LAMBDA c : bc[c].we.del_cgn[1], crs \cap Nearby), cgnShare)
       onst == RAdd(renOnstCr, renElOnst)
-      nrb == RSub(RAdd(RAdd(renNrbCr, renElOnst), renElCgn), RMul(RSub(One, k), renElExpA))
+      nrb == RSub(RAdd(RAdd(renNrbCr, renElOnst), renElCgn), RMul(RSub(One, k), renCgnExp))
       bal ==
         [needs |-> [s \in NeedSrvs(C) |-> R(NeedsAn(C, s))],
          used_epus |-> R(ISumSet(LAMBDA c : bc[c].an.epus, crs)),
